@@ -46,8 +46,9 @@ RULE = (
     "malformed parameter list; cursor position reports; UTF-8 characters of 1-4 bytes; UTF-8-shaped "
     "byte strings that may or may not be characters (lead + announced number of continuation bytes "
     "biased to the overlong / surrogate / > U+10FFFF boundaries, 5/6-byte forms, stray continuation and "
-    "0xF8-0xFF bytes, one continuation byte replaced); double-byte characters; C0 bytes; printable "
-    "bytes; ESC-prefixed (meta) items; truncated items; arbitrary bytes) x the two built-in "
+    "0xF8-0xFF bytes, one continuation byte replaced); double-byte characters; a byte >= 0x80 followed by "
+    "a byte that is no second half; a stray byte >= 0x80 in front of any self-delimiting item; C0 bytes; "
+    "printable bytes; ESC-prefixed (meta) items; truncated items; arbitrary bytes) x the two built-in "
     "fragmentations (byte by byte; byte by byte with a wake-up of the input callback that reads nothing "
     "after every read) plus 1-6 generated ones (sorted cut positions, each with a flag 'the completion "
     "timeout fires here' and a flag 'the input callback runs once more here and reads nothing') x "
@@ -59,7 +60,10 @@ RULE = (
     "reports, a character of every class and every C0 / printable byte (whole, cut after the ESC with and "
     "without timeout / wake-up, cut inside the sequence); every UTF-8-shaped sequence (lead 0xC0-0xF7 x all 64 second bytes x "
     "extreme later bytes; alone with every single cut, between printable bytes, doubled before a key "
-    "sequence); every two-byte character of gbk / big5 / uhc / euc-jp. Non-trivial: the stream contains "
+    "sequence); every two-byte character of gbk / big5 / uhc / euc-jp; every byte >= 0x80 in front of every "
+    "byte that cannot be a second half (0x00-0x3F, DEL) and in front of ESC-led key / mouse / cursor-position / "
+    "meta forms (double-byte codecs, utf-8, iso8859-1; cut after the byte plain / timeout / wake-up), and "
+    "four such bytes in front of every recognised item. Non-trivial: the stream contains "
     "a multi-byte item and at least one cut of a case fragmentation falls strictly inside it. sync: the "
     "same streams written to a pipe whole or in up to three pieces and read with Screen.get_input(), "
     "one call per write plus calls that find nothing new. Thorough tier adds an atheris coverage-guided "
@@ -105,6 +109,16 @@ ASSUMPTIONS = [
     "byte is 'a byte that forms no known sequence' = exactly one string event of its own (spelling not "
     "asserted). A string that ends inside a character which further bytes could complete is not "
     "self-delimiting: only oracles 1, 2, 4 apply to it",
+    "wide (double-byte) mode, bytes >= 0x80, read strictly left to right: lead 0x81-0xFE followed by "
+    "0x40-0x7E or 0x80-0xFE is the double-byte character (one event, the two bytes) - the union of the "
+    "second-half ranges of the EUC, Big5, GBK and UHC families urwid maps to this mode; a byte >= 0x80 "
+    "followed by a byte outside every second-half range (0x00-0x3F: C0 bytes incl. ESC, space, digits, "
+    "punctuation; 0x7F) is a character in none of them, hence 'a byte that forms no known sequence': exactly "
+    "one string event of its own (spelling not asserted) and the follower decodes as it does without it. "
+    "Nothing is asserted about pairs involving 0x80 / 0xFF (no double-byte codec defines them) beyond oracles "
+    "1, 2, 4, and a string ending on a byte >= 0x80 is not self-delimiting. The same high byte in front of "
+    "such a follower is one string event in utf-8 mode (not followed by a continuation byte: CPython's codec "
+    "rejects it) and the character chr(byte) in the single-byte mode",
 ]
 
 ENCODINGS = ["utf-8", "euc-jp", "iso8859-1"]
@@ -290,10 +304,43 @@ def byte_spec(b, mode):
     return ("str",)
 
 
+def not_second_half(b):
+    """True for a byte that is the second half of a double-byte character in none of the encodings urwid's
+    wide mode stands for (EUC-JP/KR/CN: 0xA1-0xFE; Big5 / GBK / UHC / Shift-JIS-like: also 0x40-0x7E and
+    0x80-0xA0): the C0 bytes, space, ASCII punctuation and digits (0x00-0x3F) and DEL."""
+    return b < 0x40 or b == 0x7F
+
+
+def _wide_specs(data):
+    """wide mode, ESC-free bytes, consumed strictly left to right.  A byte < 0x80 is an event by itself.
+    A byte >= 0x80 followed by a byte that cannot be a second half forms no character and no known
+    sequence: one string event of its own (spelling not asserted), and the follower is decoded as it
+    would be without it.  Lead 0x81-0xFE followed by 0x40-0x7E / 0x80-0xFE is the double-byte character
+    (one event, the two bytes).  No reading (None): the string ends on a byte >= 0x80 (more input could
+    complete it), or a pair involves 0x80 / 0xFF, which no double-byte encoding defines."""
+    specs, i, n = [], 0, len(data)
+    while i < n:
+        b = data[i]
+        if b < 0x80:
+            specs.append(byte_spec(b, "wide"))
+            i += 1
+        elif i + 1 == n:
+            return None
+        elif not_second_half(data[i + 1]):
+            specs.append(("str",))
+            i += 1
+        elif 0x81 <= b <= 0xFE and data[i + 1] != 0xFF:
+            specs.append(("eq", chr(b) + chr(data[i + 1])))
+            i += 2
+        else:
+            return None
+    return specs
+
+
 def text_specs(data, mode):
     """Expected events of a byte string without ESC, or None when the harness has no independent
-    reading (wide mode with bytes >= 0x80) or when the string ends inside a character that more bytes
-    could still complete.  utf8 mode: CPython's incremental UTF-8 decoder (the trusted reference for
+    reading or when the string ends inside a character that more bytes could still complete.  wide
+    mode: see _wide_specs.  utf8 mode: CPython's incremental UTF-8 decoder (the trusted reference for
     "is a character") with the surrogateescape handler segments the bytes left to right into
     well-formed characters - one event each, equal to the character - and bytes that belong to no
     character (stray continuation bytes, overlong forms, surrogates, code points above U+10FFFF,
@@ -301,6 +348,8 @@ def text_specs(data, mode):
     per byte."""
     if ESC in data:
         return None
+    if mode == "wide":
+        return _wide_specs(data)
     if mode != "utf8":
         specs = [byte_spec(b, mode) for b in data]
         return specs if all(s is not None for s in specs) else None
@@ -456,6 +505,10 @@ def build_item(it, mode) -> Item:
             return Item("db", data, True, [("eq", chr(lead) + chr(trail))], True)
         if mode == "narrow":
             return build_item(["raw", data.decode("latin-1")], mode)
+        specs = text_specs(data, mode) if mode == "wide" else None
+        if specs is not None:
+            # a byte >= 0x80 in front of a byte that is no second half: passed through, follower undisturbed
+            return Item("db-stray-lead", data, True, specs, True)
         return Item("db-other", data)
     if k == "esc":
         return Item("esc", b"\x1b")
@@ -471,6 +524,19 @@ def build_item(it, mode) -> Item:
         # independent reading of its own leaves only the metamorphic composition oracle
         alts = esc_alts(inner.alts) if complete and inner.alts is not None else None
         return Item("meta+" + inner.kind, b"\x1b" + inner.data, complete, None, alts is not None, alts)
+    if k == "stray":
+        # a byte >= 0x80 in front of a self-delimiting item X whose first byte can neither be the second
+        # half of a double-byte character nor a UTF-8 continuation byte (ESC, a C0 byte, space, digit,
+        # punctuation, DEL): in every mode the byte forms no character and no known sequence with what
+        # follows - one event of its own - and X is decoded undisturbed.  In the single-byte mode that
+        # holds whatever X starts with, and the event is the character itself
+        hb = 0x80 | (it[1] & 0x7F)
+        inner = build_item(it[2], mode)
+        data = bytes([hb]) + inner.data
+        if inner.complete and inner.alts is not None and inner.data and (mode == "narrow" or not_second_half(inner.data[0])):
+            head = ("eq", chr(hb)) if mode == "narrow" else ("str",)
+            return Item("stray+" + inner.kind, data, True, None, True, [[head, *a] for a in inner.alts])
+        return Item("stray+" + inner.kind, data)
     if k == "trunc":
         inner = build_item(it[1], mode)
         if len(inner.data) < 2:
@@ -491,6 +557,8 @@ def build_item(it, mode) -> Item:
             return Item("u8x-in-wide" if mode == "wide" else "u8x-open", data)
         if mode == "narrow":
             return Item("u8x-as-latin1", data, True, specs, True)
+        if mode == "wide":
+            return Item("u8x-as-double-byte", data, True, specs, True)
         return Item("u8x-chars" if len(specs) < len(data) and all(sp[0] == "eq" for sp in specs) else "u8x", data, True, specs, True)
     raise AssertionError(it)
 
@@ -744,7 +812,7 @@ def u8x_from_ints(a, b, c, d, e):
 def item_from_ints(v, complete_only=False):
     """v: 8 integers in 0..2**24-1 -> grammar item."""
     k, a, b, c, d, e = v[0], v[1], v[2], v[3], v[4], v[5]
-    k %= N_COMPLETE if complete_only else 32
+    k %= N_COMPLETE if complete_only else 34
     m = 2 + a % 7
     if k <= 3:
         return ["tab", b % len(TABLE)]
@@ -803,6 +871,8 @@ def item_from_ints(v, complete_only=False):
         return ["meta", item_from_ints([*v[1:], 0], True)]
     if k == 28:
         return ["meta", ["meta", item_from_ints([*v[1:], 0], True)]]
+    if k >= 32:
+        return ["stray", 0x80 + v[7] % 128, item_from_ints([*v[1:], 0], True)]
     return ["trunc", item_from_ints([*v[1:], 0], True), v[7] % 41]
 
 
@@ -1016,12 +1086,10 @@ def utf8_shape_cases():
             yield {"enc": "euc-jp", "items": [["u8x", txt], ["raw", "y"]], "frags": [[[1, 2]]]}
 
 
-def esc_prefix_cases():
-    """an ESC byte in front of every recognised report: every input_sequences entry and every independently
-    written xterm form (all modifier parameters), an X10 / SGR mouse report per modifier combination, a
-    cursor position report, a character of every class and every C0 byte; then a second ESC in front of
-    that.  Whole, cut after the first ESC (plain / wake-up without input / timeout), inside the sequence,
-    and followed by a printable byte."""
+def _recognised_items():
+    """every input_sequences entry and every independently written xterm form (all modifier parameters), an
+    X10 / SGR mouse report per modifier combination, cursor position reports, a character of every class,
+    every C0 byte and every ESC + printable byte"""
     inner = [["tab", i] for i, (_s, name) in enumerate(TABLE) if name not in ("mouse", "sgrmouse")]
     for m in range(2, 9):
         inner += [["csi1", m, x] for x in sorted(CSI1_KEYS)]
@@ -1034,13 +1102,57 @@ def esc_prefix_cases():
     inner += [["cpr", 24, 80], ["cpr", 1, 3]]
     inner += [["u8", cp] for cp in (0xE9, 0x20AC, 0x1F600)] + [["db", 0xA4, 0xA2], ["u8x", "\xc0\x80"], ["u8x", "\xbf"]]
     inner += [["raw", chr(c)] for c in _C0 if c != ESC] + [["alt", c] for c in range(32, 127)]
+    return inner
+
+
+def esc_prefix_cases():
+    """an ESC byte in front of every recognised report (_recognised_items); then a second ESC in front of
+    that.  Whole, cut after the first ESC (plain / wake-up without input / timeout), inside the sequence,
+    and followed by a printable byte."""
     for enc in ENCODINGS:
         mode = {"utf-8": "utf8", "euc-jp": "wide", "iso8859-1": "narrow"}[enc]
-        for it in inner:
+        for it in _recognised_items():
             n = len(build_item(it, mode).data) + 1
             yield {"enc": enc, "items": [["meta", it], ["raw", "z"]],
                    "frags": [[[1, 0]], [[1, 2]], [[1, 1]], [[2, 0], [n - 1, 2]]]}
             yield {"enc": enc, "items": [["meta", ["meta", it]]], "frags": [[[1, 0], [2, 0]], [[2, 3]]]}
+
+
+_WIDE_ENCODINGS = ["euc-jp", "gbk", "big5", "uhc"]
+_STRAY_FOLLOWERS = [
+    ["tab", 0], ["tab", len(TABLE) // 2], ["csi1", 5, "A"], ["csit", 5, 2], ["ss3", "P"], ["x10", 32, 40, 50],
+    ["sgr", 0, 12, 7, "M"], ["cpr", 24, 80], ["alt", ord("j")], ["meta", ["raw", "\r"]], ["meta", ["csi1", 3, "D"]],
+]
+
+
+def stray_high_byte_cases():
+    """a byte >= 0x80 that is not followed by a possible second half / continuation byte is a byte that forms
+    no known sequence: every such byte x every follower byte that is no second half (0x00-0x3F and DEL; the
+    follower ESC as the first byte of a key sequence, mouse report, cursor position report or meta form) in
+    the double-byte mode; every such byte x the ESC-led forms and a diagonal of the single followers in every
+    double-byte codec name, utf-8 and iso8859-1; and four such bytes in front of every recognised item.
+    Whole, byte by byte, cut after the high byte (plain / timeout / wake-up without input), followed by
+    a printable byte."""
+    singles = [c for c in [*range(0x40), 0x7F] if c != ESC]
+    frags = [[[1, 0]], [[1, 1]], [[1, 3]]]
+    for hb in range(0x80, 0x100):
+        for c in singles:
+            yield {"enc": "euc-jp", "items": [["stray", hb, ["raw", chr(c)]], ["raw", "y"]], "frags": frags}
+            if (hb + c) % 8 == 0:
+                for enc in ("gbk", "big5", "uhc", "utf-8", "iso8859-1"):
+                    yield {"enc": enc, "items": [["raw", "x"], ["stray", hb, ["raw", chr(c)]], ["raw", "y"]], "frags": [[[2, 0]], [[2, 1]]]}
+        for j, f in enumerate(_STRAY_FOLLOWERS):
+            for enc in (_WIDE_ENCODINGS[(hb + j) % 4], "utf-8", "iso8859-1"):
+                yield {"enc": enc, "items": [["stray", hb, f], ["raw", "y"]], "frags": [[[1, 0], [3, 0]], [[1, 1]], [[2, 2]]]}
+        # a double-byte / UTF-8 character in front of the stray byte; two such bytes in a row (they are two
+        # characters in the single-byte mode only)
+        yield {"enc": "euc-jp", "items": [["db", 0xA4, 0xA2], ["stray", hb, ["tab", 0]]], "frags": [[[3, 0]], [[2, 1]]]}
+        yield {"enc": "utf-8", "items": [["u8", 0x20AC], ["stray", hb, ["tab", 0]]], "frags": [[[4, 0]], [[3, 1]]]}
+        yield {"enc": "iso8859-1", "items": [["stray", hb, ["stray", hb ^ 0x41, ["tab", 0]]]], "frags": [[[1, 0]], [[2, 1]]]}
+    for enc in ENCODINGS:
+        for it in _recognised_items():
+            for hb in (0x80, 0x8E, 0xA1, 0xFF):
+                yield {"enc": enc, "items": [["stray", hb, it], ["raw", "z"]], "frags": [[[1, 0]], [[1, 3]]]}
 
 
 def mouse_sgr_cases():
@@ -1164,6 +1276,8 @@ def shard(ctx):
          "character class / C0 byte x 3 encodings", esc_prefix_cases()),
         ("every UTF-8-shaped sequence (lead 0xC0-0xF7 x every second byte x extreme later bytes), character or not", utf8_shape_cases()),
         ("every two-byte character of gbk / big5 / uhc / euc-jp (by Python's codecs): whole and split", dbcs_cases()),
+        ("a byte >= 0x80 (all 128) in front of every byte that is no second half (0x00-0x3F, DEL), in front of the "
+         "ESC-led forms, and four of them in front of every recognised item x double-byte / utf-8 / iso8859-1", stray_high_byte_cases()),
     ]
     for name, cases in sweeps:
         if ctx.failure is None:
